@@ -310,9 +310,24 @@ def _evolve_checked(cx, fam, spec, ttno, h, lab, q, t, method, tau, normalize, t
         else:
             run.violation(f"alias:evolve:{'imag' if imag else 'real'}:{NAME[method]}:input-modified",
                           rep(returns_input=bool(same), input_change=float(min(d, 1e300))))
+    got = L.dense_ttns(new)
+    # ---- branching history: the same call on the same state (same operator object) must give the same state again,
+    #      whatever happened to the result of the first call in between
+    if not same and (method in (PS, PS2) or cx.rng.random() < 0.3):
+        try:
+            _cfg(t, method, tight, no_growth=(fam == "cluster"))
+            again = t.evolve(ttno, tau, normalize=normalize)
+            g2 = L.dense_ttns(again) * complex(again.coeff)
+            g1 = got * complex(new.coeff)
+            dev = float(np.linalg.norm(g2 - g1) / max(np.linalg.norm(g1), 1e-300))
+            run.count("branching:repeated-call")
+            if dev > 1e-7:
+                run.violation(f"evolve:{NAME[method]}:{'imag' if imag else 'real'}:second-call-from-same-state-differs",
+                              rep(rel_dev=dev, what="state.evolve(H, tau) called twice on the same state gave two different states"))
+        except Exception as e:  # noqa
+            run.violation(f"evolve:{NAME[method]}:second-call-from-same-state-raises:{type(e).__name__}", rep(error=repr(e)[:300]))
     # ---- reference
     ref = L.expm_apply(h, psi0, tau)
-    got = L.dense_ttns(new)
     nref = np.linalg.norm(ref)
     if normalize:
         exp_vec = ref / nref
